@@ -19,7 +19,7 @@ SPACE = [
     ("contraction", ["segmented", "SP", "gen-ss", "gen-pd", "3-primitives"]),
     ("shell_order", ["grouped", "reversed", "interleaved", "rotated", "perm2", "perm3", "skip-first-center"]),
     ("conventions", ["own", "fchk", "molden", "wfn", "mwfn", "horton2", "cca", "orca", "scr1", "scr2"]),
-    ("mo", ["restricted", "rohf", "rohf-triplet", "beta-hole", "fractional", "aminusb", "aminusb-neg", "aminusb-zero", "unrestricted", "unrestricted-na>nb", "occupied-only", "irreps", "unrestricted-occupied-only"]),
+    ("mo", ["restricted", "rohf", "rohf-triplet", "beta-hole", "fractional", "aminusb", "aminusb-neg", "aminusb-zero", "aminusb-balanced", "unrestricted", "unrestricted-na>nb", "occupied-only", "irreps", "unrestricted-occupied-only"]),
     ("extras", ["none", "rdm-scf", "rdm-scf+spin", "rdm-post", "energy-none", "title-none", "atcharges", "mo_spin", "fortran-arrays", "strided-arrays"]),
 ]
 
@@ -182,6 +182,9 @@ def build(case, target, seed=0):
         elif mokind == "aminusb-neg":  # more beta than alpha electrons
             occs = np.array(([2.0, 1.5, 0.5] + [0.0] * norb)[:norb])
             am = np.array(([0.0, -0.5, -0.5] + [0.0] * norb)[:norb])
+        elif mokind == "aminusb-balanced":  # spin density without net spin polarisation (alpha-minus-beta sums to zero)
+            occs = np.array(([2.0, 1.5, 1.5] + [0.0] * norb)[:norb])
+            am = np.array(([0.0, 0.5, -0.5] + [0.0] * norb)[:norb])
         elif mokind == "aminusb-zero":  # spin-averaged open shell: integer occupations with an explicit, all-zero alpha-minus-beta
             occs = np.array(([2.0, 1.0, 1.0] + [0.0] * norb)[:norb])
             am = np.zeros(norb)
